@@ -267,6 +267,31 @@ def run_sobol(ctx, exe, rng):
                                       "aligned block of 2^%d Sobol' points does not hit every subinterval (dim %d)" % (k, d),
                                       {"stream": "sobol", "ops": ["init %d" % sd], "dim": d, "block_start": start, "k": k})
                         return
+    # nlopt_sobol_skip(n): the number of skipped points (largest power of two below n; one point for n <= 2) is visible in the
+    # state of the next point; counts at and around every power of two, plus random ones
+    ns = sorted(set([0, 1, 2, 3, 5, 6, 7] + [v for e in range(2, 15) for v in ((1 << e) - 1, 1 << e, (1 << e) + 1)] + [rng.randrange(1, 20000) for _ in range(12)]))
+    ops = []
+    for n in ns:
+        ops += ["init %d" % rng.choice([1, 2, 5]), "skip %d" % n, "next", "next"]
+    text = "\n".join(ops) + "\n"
+    rc, out = sh([exe, "sobol"], input=text.encode(), timeout=600)
+    impl = out.split("\n")
+    try:
+        model = run_model("sobol", text, timeout=600)
+    except Exception as e:
+        ctx.broke("sobol model driver", repr(e))
+        return
+    sk = 0
+    for i, op in enumerate(ops):
+        tot += 1
+        a = impl[i] if i < len(impl) else "<missing>"
+        b = model[i] if i < len(model) else "<missing>"
+        if a != b:
+            dis += 1
+            sk += 1
+            if sk == 1:
+                ctx.broke("correspondence sobol skip (model vs sobolseq.c)", "%s then op %d %s: impl=%s model=%s" % (ops[i - i % 4 + 1], i, op, a[:80], b[:80]))
+    ctx.cov["sobol_skip_counts_compared"] = len(ns)
     ctx.corr["sobol"] = {"dimensions": dims, "ops": tot, "disagreements": dis}
     # scaled values: nlopt_sobol_next01 doubles strictly inside (0,1)
     ops = ["init 5"] + ["nextv"] * 300
